@@ -34,6 +34,10 @@ Inductive case :=
 | CQuicIds (l : list (option N * N))
 (* GREASETransportParameter.ID with IdOverride *)
 | CTpId (id_override : N) (draw : option N) (got : N)
+(* batch of the same: boundary overrides (0..64, around 2^62, 2^63, 2^64), through ID() and Marshal *)
+| CTpIds (l : list (N * option N * N))
+(* IsGREASEID on boundary ids: (id, answer) *)
+| CIsGreaseIds (l : list (N * bool))
 (* GetGREASEVersion *)
 | CQuicVersions (l : list (option N * N))
 (* VersionInformation.Value: AvailableVersions, the draws consumed, the uint32s emitted after ChoosenVersion *)
@@ -74,6 +78,8 @@ Definition check (c : case) : bool :=
         end) l
   | CQuicIds l => forallb (fun p => grease_id (fst p) =? snd p) l
   | CTpId o d got => tp_grease_id o d =? got
+  | CTpIds l => forallb (fun p => tp_grease_id (fst (fst p)) (snd (fst p)) =? snd p) l
+  | CIsGreaseIds l => forallb (fun p => Bool.eqb (is_grease_id (fst p)) (snd p)) l
   | CQuicVersions l => forallb (fun p => grease_version (fst p) =? snd p) l
   | CVersionInfo avail draws got => nlist_eqb (vi_versions avail draws) got
   end.
